@@ -421,7 +421,7 @@ func caseRead(r *mon.Rec, idx int, gray bool) {
 		if rng.IntN(5) == 0 {
 			dp = port(rng)
 		}
-		f := refframe.Default(src, dst, port(rng), dp, payloadOf(rng, []int{0, 1, 7, 240, 300, 301, 548, 1400}[rng.IntN(8)]+rng.IntN(3), 4))
+		f := refframe.Default(src, dst, port(rng), dp, payloadOf(rng, []int{0, 1, 7, 240, 300, 301, 548, 1400, 1497, 1498}[rng.IntN(10)]+rng.IntN(3), 4)) // up to 1500 octets: with a 60-octet IP header the largest frame a 1500-octet read has to take
 		k := rng.IntN(14)
 		if gray {
 			k = 14 + rng.IntN(5)
